@@ -175,6 +175,25 @@ def run(R):
                     "each ctx.%s() runs in its own handler (covering Exception) inside the loop: one failing context does not stop the others" % hook,
                     "ctx.%s() is not individually guarded inside the loop: the first failing %s() skips the remaining contexts, which are later "
                     "paused/resumed out of step" % (hook, hook))
+        # the handler records the exception (for the first one at least) and the recorded value is what the task is failed with
+        for n, c in kit.call_sites(m, lambda c: q.attr_call(c)[1] == hook and isinstance(q.attr_call(c)[0], ast.Name) and q.attr_call(c)[0].id != "self"):
+            trys = [t for t in kit.enclosing_try_handlers(c) if any(t is sub for sub in ast.walk(lp))]
+            for h in [h for t in trys[:1] for h in t.handlers if kit.handler_covers(h, "Exception", hier)]:
+                hn = kit.one(mcfg.nodes_for(h), "handler node")
+                recs = [x for x in mcfg.nodes if x.kind == "stmt" and isinstance(x.ast, ast.Assign) and isinstance(x.ast.value, ast.Name) and x.ast.value.id == h.name
+                        and any(x.ast is y for y in ast.walk(h))]
+                errs0 = set(t.id for x in recs for t in x.ast.targets if isinstance(t, ast.Name))
+                # path-sensitive in the accumulator: its first value (None) decides `if error is None:`
+                reach = mcfg.find_path_flags([mcfg.entry], recs, errs0, N) if recs else None
+                errs = set(t.id for x in recs for t in x.ast.targets if isinstance(t, ast.Name))
+                comp_nodes = [nn for nn, cc, kind, v in ro.completing_calls(m) if kind == "error" and isinstance(v, ast.Name) and v.id in errs]
+                flow = None
+                for r_ in recs:
+                    flow = flow or mcfg.find_path([e.dst for e in mcfg.out_edges(r_.id, N)], comp_nodes, N)
+                R.check(reach is not None and flow is not None, "C06.HOOK-ALL", m.qualname + ":error-flow", R.site(m, h),
+                        "a %s() that raises is recorded and the task is failed with that exception" % hook,
+                        "an exception raised by ctx.%s() is never recorded / never reaches the task's error: it is silently swallowed (a NonAsyncContext would no longer "
+                        "fail the task that yields inside it)" % hook)
         # the collected error reaches the task
         acc = [c for n_, c, kind, v in ro.completing_calls(m) if kind == "error"]
         R.check(bool(acc), "C06.HOOK-ALL", m.qualname + ":error", R.site(m),
